@@ -174,6 +174,12 @@ class Con:
     include_last: bool = True
     scale: Any = 1
 
+    def __post_init__(self):
+        for k in ('lhs', 'rhs', 'mid'):
+            v = getattr(self, k)
+            if v is not None and not isinstance(v, E):
+                setattr(self, k, E('c', Fraction(v)))
+
 
 @dataclass
 class Spec:
